@@ -126,6 +126,7 @@ def main(tier: str) -> int:
     # ---- the model: the design as coded satisfies the properties; the two wrong designs are refuted (non-vacuity)
     wprops = ("BoundedBuffering", "FrameBeforeInput", "NoFurtherThanCompleting", "WTerminates")
     jobs = [("w", dict(NStmts=n, FrameSize=fs, MaxRows=3, ReadAhead=0, EnrollFirst=ef)) for n in (3, 6) for fs in (1, 2, 3, 4, 7) for ef in ("TRUE", "FALSE")]
+    jobs += [("w", dict(NStmts=5, FrameSize=fs, MaxRows=16, ReadAhead=0, EnrollFirst="TRUE")) for fs in (9, 18, 32)]
     jobs += [("r", dict(NFrames=nf, Delivered=d, RowsPerFrame=rp, Lookahead=0)) for nf in (1, 3, 4) for d in range(0, nf + 1) for rp in (1, 3)]
     jobs += [("wbad", dict(NStmts=5, FrameSize=3, ReadAhead=1)), ("rbad", dict(NFrames=3, Delivered=2, Lookahead=1))]
 
@@ -172,6 +173,30 @@ def main(tier: str) -> int:
                         groups.setdefault((fs, n, "TRUE" if entry == "stream_frames" else "FALSE"), []).append({"id": tid, "events": ev})
                         metas[tid] = ({"side": "write", "integ": integ, "entry": entry, "ptype": c["PType"], "frame_size": fs},
                                       {"statements": stmts, "frame_size": fs, "events": ev})
+
+    # statements that each need MANY rows (every term a fresh IRI in an unseen namespace; quoted triples), with larger frame sizes:
+    # a serializer that skips the bounds check "because the next statements certainly still fit" shows only here
+    def fresh(i, k):
+        return ("iri", f"http://ns{i}-{k}.example/path/local{i}{k}")
+
+    heavy = {
+        ("generic", 2): [(fresh(i, 0), fresh(i, 1), fresh(i, 2), fresh(i, 3)) for i in range(14)],
+        ("rdflib", 2): [(fresh(i, 0), fresh(i, 1), fresh(i, 2), fresh(i, 3)) for i in range(14)],
+        ("generic", 1): [(("qt", fresh(i, 0), fresh(i, 1), fresh(i, 2)), fresh(i, 3), ("qt", fresh(i, 4), fresh(i, 5), ("lit", str(i), "", f"http://dt{i}.example/t")))
+                         for i in range(14)],
+    }
+    for (integ, ptype), stmts in heavy.items():
+        for fs in (9, 16, 18, 32, 64):
+            for entry in ("flat_stream_to_frames", "stream_frames"):
+                try:
+                    ev = record_write_run(integ, entry, ptype, stmts, fs, (4000, 150, 32))
+                except Exception as ex:  # noqa: BLE001
+                    run.violation({"side": "write", "clause": "pipeline-raised", "integ": integ, "entry": entry}, f"{type(ex).__name__}: {ex}", {"frame_size": fs})
+                    continue
+                tid += 1
+                groups.setdefault((fs, len(stmts), "TRUE" if entry == "stream_frames" else "FALSE"), []).append({"id": tid, "events": ev})
+                metas[tid] = ({"side": "write", "integ": integ, "entry": entry, "ptype": ptype, "frame_size": fs, "workload": "many-rows-per-statement"},
+                              {"statements": [repr(x) for x in stmts[:3]], "frame_size": fs, "events": ev})
 
     def judge_group(item):
         (fs, n, ef), traces = item
